@@ -68,7 +68,59 @@ func (p *lexLin) of(v ssa.Value) (lin, bool) {
 	if v == nil {
 		return lin{}, false
 	}
+	if p.m.isPosLoad(v) {
+		v = p.rep(v)
+	}
 	return lin{t: map[linKey]int64{{v, false}: 1}}, true
+}
+
+// rep: the earliest read of the position cell that is known to have seen the same content as v: it
+// dominates v and no store to the cell can run in between.
+func (p *lexLin) rep(v ssa.Value) ssa.Value {
+	vi, ok := v.(ssa.Instruction)
+	if !ok {
+		return v
+	}
+	best := v
+	ir.Instrs(p.m.fn, func(in ssa.Instruction) {
+		u, isV := in.(ssa.Value)
+		if !isV || best != v || u == v || !p.m.isPosLoad(u) || in.Parent() != vi.Parent() {
+			return
+		}
+		ub, vb := in.Block(), vi.Block()
+		if ub == vb {
+			if ir.IndexIn(in) < ir.IndexIn(vi) && p.m.storeIn(ub, ir.IndexIn(in), ir.IndexIn(vi)) < 0 {
+				best = u
+			}
+			return
+		}
+		if !ub.Dominates(vb) || p.m.storeIn(ub, ir.IndexIn(in), len(ub.Instrs)) >= 0 || p.m.storeIn(vb, 0, ir.IndexIn(vi)) >= 0 {
+			return
+		}
+		// the blocks strictly between: reachable from u's block, able to reach v's block
+		fromU := map[*ssa.BasicBlock]bool{}
+		for _, sc := range ub.Succs {
+			for b := range ir.Reach(sc, map[*ssa.BasicBlock]bool{vb: true, ub: true}, nil) {
+				fromU[b] = true
+			}
+		}
+		for b := range fromU {
+			if b == vb {
+				continue
+			}
+			reaches := false
+			for _, sc := range b.Succs {
+				if sc == vb || ir.Reach(sc, map[*ssa.BasicBlock]bool{ub: true}, nil)[vb] {
+					reaches = true
+				}
+			}
+			if reaches && p.m.kill(b) {
+				return // a store in between (ways back through u's own block read the cell afresh)
+			}
+		}
+		best = u
+	})
+	return best
 }
 
 // intrinsic facts about the opaque terms of l.
@@ -110,6 +162,19 @@ func (p *lexLin) intrinsic(l lin, out *[]lin, seen map[ssa.Value]bool) {
 }
 
 func (p *lexLin) condFacts(v ssa.Value, want bool, facts *[]lin, neqs *[]lin) {
+	// strings.HasPrefix(usage[a:], "k") true: the input has len("k") more bytes from a
+	if call, isCall := v.(*ssa.Call); isCall && want {
+		if f := ir.Static(call); f != nil && ir.IsStdFunc(f, "strings", "HasPrefix") {
+			if k, isK := ir.ConstString(call.Call.Args[1]); isK {
+				if sl, isSl := call.Call.Args[0].(*ssa.Slice); isSl && p.m.isUsage(sl.X) && sl.High == nil && sl.Low != nil {
+					if lo, okLo := p.of(sl.Low); okLo {
+						*facts = append(*facts, p.lenTerm().add(lo, -1).add(linConst(int64(len(k))), -1))
+					}
+				}
+			}
+		}
+		return
+	}
 	bo, ok := v.(*ssa.BinOp)
 	if !ok {
 		return
